@@ -159,6 +159,15 @@ def run(tier):
             sc = rf.scenario("c10g-%d" % j, [retry_checks.PUB(1 + j % 2)], ["conn"], [{"k": 2, "o": "cutAfter"}], opts={"hammer": True, "hammerSleepUs": 20, "connTimeoutMs": 300})
             sc["reqs"] += [{"k": "sleep", "ms": 3, "at": "connopt:3"}]
             rsc.append(sc)
+        # Disconnect while other goroutines keep submitting requests through the same retrying client (the task queue and its
+        # wake-up channel are closed by Disconnect: a submission must either be queued or be refused, c10g)
+        dsc = []
+        # -- and, the submitting goroutines being there from before Connect, also during the first SetClient (F20: measured
+        # 10-25 % of such runs report the race on the tree before the fix, hence 36 of them in the quick tier)
+        for j in range(36 if tier == "quick" else 240):
+            sc = rf.scenario("c10d-%d" % j, [retry_checks.PUB(1)], ["conn"], [], opts={"hammerPub": (3, 6, 10)[j % 3], "hammerSleepUs": (1, 20, 5, 20)[j % 4], "connTimeoutMs": 300})
+            sc["reqs"] += [{"k": "sleep", "ms": 1 + j % 3, "at": "conn"}, {"k": "disconnect", "at": "conn"}]
+            dsc.append(sc)
         # application-side concurrency on the retrying client: Handle / Ping / sample (Client, Err, Done) while requests run
         for s in rsc:
             s["reqs"] = s["reqs"] + [{"k": "handle", "h": 1, "at": "conn"}, {"k": "sample", "at": "conn"}]
@@ -166,7 +175,7 @@ def run(tier):
         # shared with the next acknowledgement it parses)
         import c07_acks
         asc = [{"id": "ab%d" % bi, "batch": b} for bi, b in enumerate(vlib.chunks(c07_acks.bursts(tier, rng) + c07_acks.abandoned(), 6))]
-        for fam, lst, conc in (("wire", wsub, 1), ("retry", rsc, 2), ("acks", asc, 2)):
+        for fam, lst, conc in (("wire", wsub, 1), ("retry", rsc + dsc, 2), ("acks", asc, 2)):
             for x in run_race(rbin, fam, lst, conc):
                 race_runs += 1
                 if "crash" in x and "DATA RACE" in x["crash"]:
